@@ -275,6 +275,16 @@ func OkBufferBeforeFree(m *mangos.Message, w io.Writer) {
 	m.Free()
 }
 
+// ---- E5: a send arm nobody tests
+func (x *Q) BadE5SelectSendThenFree() {
+	m := <-x.other
+	select {
+	case x.q <- m:
+	default:
+	}
+	m.Free()
+}
+
 // ---- E11 closer leak
 type L struct {
 	l     net.Listener
@@ -625,29 +635,30 @@ func runSelfTests(verifDir string) SelfTestResult {
 		}
 	}
 	want := map[string]string{
-		"badE1HeldAtReturn":      "E1/held-at-return",
-		"badE1Double":            "E1/double-lock",
-		"BadE3Read":              "E3/unguarded",
-		"BadE3bStale":            "E3b/stale",
-		"BadCondWait":            "cond/wait",
-		"BadCondSignal":          "cond/signal",
-		"BadE5Double":            "E5/double-release",
-		"BadE5UseAfter":          "E5/use-after-release",
-		"BadE5WriteBeforeUnique": "E5/write-before-unique",
-		"SendMsg":                "E5/release-on-error", // badSender (okSender shares the name: see below)
-		"BadE6d":                 "E6d/unbounded",
-		"BadE5DeferredClosure":   "E5/double-release",
-		"BadE5LoopErr":           "E5/double-release",
-		"BadBufferAfterFree":     "E5/buffer-after-release",
-		"BadE11Leak":             "e11",
-		"BadRequeue":             "requeue",
-		"BadPublish":             "publish",
-		"BadShortRead":           "read",
-		"BadE12Stop":             "e12",
-		"BadE12AfterClear":       "e12",
-		"BadE12LazyMap":          "e12",
-		"BadE13Resize":           "e13",
-		"BadE14Add":              "e14",
+		"badE1HeldAtReturn":       "E1/held-at-return",
+		"badE1Double":             "E1/double-lock",
+		"BadE3Read":               "E3/unguarded",
+		"BadE3bStale":             "E3b/stale",
+		"BadCondWait":             "cond/wait",
+		"BadCondSignal":           "cond/signal",
+		"BadE5Double":             "E5/double-release",
+		"BadE5UseAfter":           "E5/use-after-release",
+		"BadE5WriteBeforeUnique":  "E5/write-before-unique",
+		"SendMsg":                 "E5/release-on-error", // badSender (okSender shares the name: see below)
+		"BadE6d":                  "E6d/unbounded",
+		"BadE5DeferredClosure":    "E5/double-release",
+		"BadE5LoopErr":            "E5/double-release",
+		"BadE5SelectSendThenFree": "E5/double-release",
+		"BadBufferAfterFree":      "E5/buffer-after-release",
+		"BadE11Leak":              "e11",
+		"BadRequeue":              "requeue",
+		"BadPublish":              "publish",
+		"BadShortRead":            "read",
+		"BadE12Stop":              "e12",
+		"BadE12AfterClear":        "e12",
+		"BadE12LazyMap":           "e12",
+		"BadE13Resize":            "e13",
+		"BadE14Add":               "e14",
 	}
 	silent := []string{"okE1Defer", "OkE3Read", "OkE3bRecheck", "OkCondWait", "OkE5Once", "OkE5UniqueThenWrite", "OkE6d", "OkE6dRange", "SetN", "Close", "NewT", "OkE5Loop", "OkBufferBeforeFree", "OkE11Closed", "OkE11StoredFirst", "OkForward", "OkPublish", "OkFullRead", "Arm", "OkE12Stop", "OkE12Helper", "peerReady", "OkE12Companion", "OkE12Map", "OkE12LazyMap", "OkE13Resize", "NewW", "Wait", "OkE14Del", "All"}
 	var names []string
